@@ -11,6 +11,16 @@ CHECKS = {
          "CBMC + cadical; realloc without content copy; typed memset/memcpy rewrite (lib/typed_mem.h); malloc never fails", "bounded symbolic execution (CBMC) of props/storage.c with heap and leak instrumentation"),
  "C11": ("model_checking", "All sequences of up to 8 (thorough 14) HAL calls after open over a mock driver whose every return code is symbolic, device object freed by the driver's close: protocol monitor (stop/append/get_frame only while the driver is running, one close per successful driver open incl. open's error paths, nothing after close), HAL state = function of the driver's last response, CBMC deallocated-object checks for accesses after close.", "§4 C11",
          "CBMC + cadical; device manager replaced by a stub returning the mock driver; function pointers non-NULL", "bounded symbolic execution (CBMC) of hal/camera.c, storage.c, driver.c over a symbolic call sequence"),
+ "C03": ("model_checking", "Real channel_write_map from an arbitrary 64-bit INV state as main flow; the real accept_writes/read_map/read_unmap run as environment steps inserted by goto-instrument --isr before every read of the fields the writer consults between taking the lock and going to sleep (so also between its check and its sleep); pthread-faithful sleep model (a broadcast only wakes a thread that is already asleep); the solver must show that the writer never sleeps forever once writes are refused / readers have drained. Plus drain-in-3-rounds from any INV state, plus the notification audit of the C01 step harnesses.", "§4 C03",
+         "CBMC + kissat; lock/cv model; env steps needing the lock while the writer holds it start after its release; <=2 readers; ISR counterexamples are reported from the solver trace (no native replay at instruction granularity)", "bounded symbolic execution (CBMC) with ISR-instrumented interleavings of the real channel functions"),
+ "C14": ("model_checking", "Append step: raw device running with an arbitrary 64-bit file offset, one append of 0..4 (8) arbitrary bytes under every short-write pattern of pwrite, observed at each accepted pwrite (own descriptor, offset0+done, packet+done); acquisition skeleton: 2 acquisitions with every URI spelling, each write goes to the URI's file at the offset = bytes appended earlier in this acquisition, descriptor closed at stop. The real linux/platform.c file functions run on a syscall model.", "§4 C14",
+         "CBMC + cadical; syscall model env/fs_model.c; typed mem rewrite; same path not re-used by a later acquisition", "bounded symbolic execution (CBMC) of raw.c + platform.c + HAL over a syscall model"),
+ "C16": ("model_checking", "raw and trash devices through the HAL: every sub-sequence of set,start,append,append,stop,stop[,set,start,append,stop] then close, with a failing open and one-shot/persistent pwrite failures at symbolic indices: only owned descriptors written/closed, each closed exactly once, failing append leaves the running state. (tiff / tiff-json: see not_applicable note in DESIGN for what is covered.)", "§4 C16",
+         "CBMC + cadical; syscall model; open returns the lowest free descriptor", "bounded symbolic execution (CBMC) of raw.c/trash.c + platform.c + HAL with fault injection"),
+ "C17": ("model_checking", "simcam_set/get/get_shape/get_meta with shape, offset, exposure, type, trigger fully symbolic (32-bit) and every binning: clamping, strides, get-after-set, and allocation sizes >= the extent of the full-resolution render (extent formula proved against the real loops in the thorough tier on a small shape box).", "§4 C17",
+         "CBMC + cadical; popcount C model; realloc stub records sizes", "bounded symbolic execution (CBMC) of simulated.camera.c"),
+ "C05": ("model_checking", "Framing arithmetic in the real video_source_thread for every ImageShape (plane stride <= 2^37, all sample types); alignment shown inductive in the channel (INV + all cursors multiple of 8); packet structure checked by the mock storage/client in the unit and runtime harnesses.", "§4 C05",
+         "CBMC; as C01 for the induction steps", "bounded symbolic execution (CBMC): source.c framing with symbolic shape + channel induction step with alignment"),
 }
 NA = {}
 def main():
